@@ -9,8 +9,11 @@ package p2p
 //@   ensures ret2 == nil ==> ret0 != nil
 //@
 //@ // the per-topic validator installed by addValidatorImpl (captures topic, handleError, valFunc, messProto)
+//@ // C04: it accepts only a message that decodes, lies on the validator's topic and has the validator's own
+//@ // message type; everything else is rejected before (or instead of) asking the handler's validator
 //@ func (*P2PMessaging).addValidatorImpl$2
 //@   requires message != nil && valFunc != nil && handleError != nil
+//@   ensures ret0 == 0 ==> (unmshl != nil && typetag(unmshl) == typetag(messProto))
 //@   opt frame = off
 //@
 //@ // reject-dominates combination of all validators of a topic (captures r and topic)
